@@ -44,7 +44,14 @@ impl Axecutor {
             )));
         }
 
-        let (quotient, remainder) = (ax / src_val, ax % src_val);
+        let (quotient, remainder) = match (ax.checked_div(src_val), ax.checked_rem(src_val)) {
+            (Some(q), Some(r)) if q >= i8::MIN as i16 && q <= i8::MAX as i16 => (q, r),
+            _ => {
+                return Err(AxError::from(format!(
+                    "Divide error in Idiv_rm8: quotient does not fit into the destination"
+                )))
+            }
+        };
 
         self.reg_write_8(AL, quotient as u8 as u64)?;
         self.reg_write_8(AH, remainder as u8 as u64)?;
@@ -75,7 +82,14 @@ impl Axecutor {
         let dst_val =
             (self.reg_read_16(AX)? as u32 | ((self.reg_read_16(DX)? as u32) << 16)) as i32;
 
-        let (quotient, remainder) = (dst_val / src_val, dst_val % src_val);
+        let (quotient, remainder) = match (dst_val.checked_div(src_val), dst_val.checked_rem(src_val)) {
+            (Some(q), Some(r)) if q >= i16::MIN as i32 && q <= i16::MAX as i32 => (q, r),
+            _ => {
+                return Err(AxError::from(format!(
+                    "Divide error in Idiv_rm16: quotient does not fit into the destination"
+                )))
+            }
+        };
 
         self.reg_write_16(AX, quotient as u16 as u64)?;
         self.reg_write_16(DX, remainder as u16 as u64)?;
@@ -105,7 +119,14 @@ impl Axecutor {
 
         let dst_val = (self.reg_read_32(EAX)? | (self.reg_read_32(EDX)? << 32)) as i64;
 
-        let (quotient, remainder) = (dst_val / src_val, dst_val % src_val);
+        let (quotient, remainder) = match (dst_val.checked_div(src_val), dst_val.checked_rem(src_val)) {
+            (Some(q), Some(r)) if q >= i32::MIN as i64 && q <= i32::MAX as i64 => (q, r),
+            _ => {
+                return Err(AxError::from(format!(
+                    "Divide error in Idiv_rm32: quotient does not fit into the destination"
+                )))
+            }
+        };
 
         self.reg_write_32(EAX, quotient as u32 as u64)?;
         self.reg_write_32(EDX, remainder as u32 as u64)?;
@@ -136,7 +157,14 @@ impl Axecutor {
         let dst_val =
             (self.reg_read_64(RAX)? as u128 | ((self.reg_read_64(RDX)? as u128) << 64)) as i128;
 
-        let (quotient, remainder) = (dst_val / src_val, dst_val % src_val);
+        let (quotient, remainder) = match (dst_val.checked_div(src_val), dst_val.checked_rem(src_val)) {
+            (Some(q), Some(r)) if q >= i64::MIN as i128 && q <= i64::MAX as i128 => (q, r),
+            _ => {
+                return Err(AxError::from(format!(
+                    "Divide error in Idiv_rm64: quotient does not fit into the destination"
+                )))
+            }
+        };
 
         self.reg_write_64(RAX, quotient as u64)?;
         self.reg_write_64(RDX, remainder as u64)?;
